@@ -6,6 +6,33 @@ import P2sh.Driver.OpsDrv
 namespace P2sh.Driver.BuiltinDrv
 open P2sh P2sh.Driver P2sh.Driver.OpsDrv
 
+def hexOf (s : String) : String := hexOfBytes (s.toUTF8.data.toList.map (·.toNat))
+
+/-- op `print <name> <fmt> <arg>*` (C12): the text written and the value returned by the
+print family.  Model: `printLen`; spec: the reference renderer's text, its length in bytes
+(plus the newline of the `ln` variants). -/
+def runPrint (args : List String) : String :=
+  match args with
+  | [] => "bad-op"
+  | name :: rest =>
+    match rest.mapM decVal with
+    | none => "bad-op"
+    | some vs =>
+      let nl := name == "println" || name == "eprintln"
+      let model := match Builtins.printLen vs nl with
+        | .ok (t, n) => s!"ok text={hexOf t} n={n}"
+        | .error _ => "rterr"
+      let spec := match vs with
+        | .str fmt :: rest =>
+          (match Spec.Format.render fmt rest with
+           | .text t =>
+             let t' := if nl then t ++ "\n" else t
+             s!"eq ok text={hexOf t'} n={t'.utf8ByteSize}"
+           | .error => "eq rterr"
+           | .any => "nopanic")
+        | _ => "eq rterr"
+      result model spec
+
 def run (args : List String) : String :=
   match args with
   | [] => "bad-op"
